@@ -512,6 +512,19 @@ func RunC04(c *core.Ctx) {
 					restruct(func(v *fdo.Voucher) { v.Entries = append(v.Entries[:1], v.Entries[2:]...) }, "middle-entry-dropped")
 				}
 				if n >= 1 {
+					// the same (r, s) / the same integer in another length: every entry's signature bytes are a bound field
+					for i := 0; i < n; i++ {
+						i := i
+						restruct(func(v *fdo.Voucher) {
+							sig := v.Entries[i].Signature
+							h := len(sig) / 2
+							if cf.spec.Bits != 0 {
+								v.Entries[i].Signature = append([]byte{0, 0}, sig...)
+								return
+							}
+							v.Entries[i].Signature = append(append(append([]byte{0}, sig[:h]...), 0), sig[h:]...)
+						}, "entry-signature-repadded")
+					}
 					restruct(func(v *fdo.Voucher) { v.Entries = v.Entries[:len(v.Entries)-1] }, "last-entry-dropped")
 					if other != nil && len(other.Entries) > 0 {
 						restruct(func(v *fdo.Voucher) { v.Entries[0] = other.Entries[0] }, "entry-spliced-from-other-voucher")
